@@ -261,11 +261,13 @@ class Sections:
         kinds = [FORM_OF[mk[2]] for mk in marks]
         if sorted(kinds) != sorted(MAIN_KINDS):
             raise Undecided(f'parse_line: line-form sections found for {kinds}, expected one each of {list(MAIN_KINDS)}')
+        self.match_exprs: T.List[T.Tuple[int, int, str, str, ast.AST]] = []
         self.pre, pre_exit = build(fn, text[:marks[0][0]], 'parse_line[state, blank/diagnostic]', helpers=f.helper)
         self.by_kind: T.Dict[str, Section] = {}
         for first, i, rn, var, mexpr, st in marks:
             seed = dict(pre_exit)
             seed[var] = _Sub(pre_exit, ps).visit(_copy(mexpr))
+            self.match_exprs.append((first, i, rn, var, seed[var]))
             tab, _ = build(fn, st.body, f'parse_line[{FORM_OF[rn]} line]', seed, helpers=f.helper)
             self.by_kind[FORM_OF[rn]] = Section(FORM_OF[rn], rn, tab, st)
         self.post, _ = build(fn, text[marks[-1][1] + 1:], 'parse_line[unknown line]', dict(pre_exit), helpers=f.helper)
@@ -457,6 +459,7 @@ class Model:
         self.diffs: T.List[Diff] = []
         self.oks: T.Dict[str, T.List[str]] = {}
         self.qn = f'{PARSER}.parse_line'
+        _check_operands(self)
         _check_pre(self)
         _check_test(self)
         _check_plan(self)
@@ -514,13 +517,67 @@ def _split(m: Model, table: tables.Table, bad: T.List[T.Tuple[Row, T.Any, T.Any,
 # ----------------------------------------------------------------------------------------------
 # the state / blank prefix of parse_line
 # ----------------------------------------------------------------------------------------------
-def _line_text(s: Sections, text: str) -> T.Optional[str]:
-    """'raw' for the unstripped line parameter, 'stripped' for line.rstrip()."""
-    if text == 'ARG1':
+def _line_shape(e: ast.AST) -> T.Optional[str]:
+    """What an expression over the line parameter keeps of the line: 'raw', 'stripped' (only trailing characters removed) or
+    'left-stripped' (leading characters may be removed: strip / lstrip / a slice with a lower bound); None = some other transformation."""
+    if isinstance(e, ast.Name) and e.id == 'ARG1':
         return 'raw'
-    if text == 'ARG1.rstrip()':
-        return 'stripped'
+    if isinstance(e, ast.Call) and isinstance(e.func, ast.Attribute) and not e.keywords and len(e.args) <= 1:
+        base = _line_shape(e.func.value)
+        if base is None:
+            return None
+        if e.func.attr == 'rstrip':
+            return 'left-stripped' if base == 'left-stripped' else 'stripped'
+        if e.func.attr in ('strip', 'lstrip'):
+            return 'left-stripped'
+        return None
+    if isinstance(e, ast.Subscript) and isinstance(e.slice, ast.Slice) and e.slice.step is None:
+        base = _line_shape(e.value)
+        if base is None:
+            return None
+        return 'left-stripped' if (e.slice.lower is not None or base == 'left-stripped') else 'stripped'
     return None
+
+
+def _line_text(s: Sections, text: str) -> T.Optional[str]:
+    """'raw' for the unstripped line parameter, 'stripped' for the line as it is matched (the shape itself is judged by _check_operands)."""
+    try:
+        sh = _line_shape(ast.parse(text, mode='eval').body)
+    except SyntaxError:
+        return None
+    return 'stripped' if sh == 'left-stripped' else sh
+
+
+def _check_operands(m: Model) -> None:
+    """K11 + K3: the line-form patterns are applied with `match` (anchored at the first character), and TAP gives meaning to `ok`,
+    `1..N`, `Bail out!`, `TAP version` only at column 0 and to YAML markers only when indented: so what reaches a `.match(...)` of a
+    line-form pattern, and the `startswith(<yaml indent>)` test, must be the line with at most *trailing* characters removed."""
+    f, s = m.f, m.s
+    sites: T.Dict[str, T.Tuple[ast.AST, ast.AST]] = {}
+    for tab in s.all_tables:
+        for r_ in tab.rows:
+            for raw, sub in T.cast(Row, r_).exprs:
+                for x in ast.walk(sub):
+                    rn = f.match_of(x)
+                    if rn is not None:
+                        sites.setdefault(f'{rn}.match({norm(x.args[0])})', (x.args[0], raw))   # type: ignore[attr-defined]
+                    if isinstance(x, ast.Call) and isinstance(x.func, ast.Attribute) and x.func.attr == 'startswith' and len(x.args) == 1 \
+                            and norm(x.args[0]) == 'self.yaml_indent':
+                        sites.setdefault(f'<line>.startswith(self.yaml_indent) on {norm(x.func.value)}', (x.func.value, raw))
+    for _, _, rn, var, mexpr in s.match_exprs:
+        sites.setdefault(f'{rn}.match({norm(mexpr.args[0])})', (mexpr.args[0], mexpr))   # type: ignore[attr-defined]
+    bad = 0
+    for key, (operand, raw) in sites.items():
+        sh = _line_shape(operand)
+        if sh is None:
+            raise Undecided(f'parse_line: `{key}`: the operand is not the line (or the line with characters removed at its ends)')
+        if sh == 'left-stripped':
+            bad += 1
+            m.diff('C18.R2', f'line operand of {key.split(".match")[0].split(" on ")[0]}', f'`{key}`: the line is matched after its LEADING characters may have been '
+                   f'removed (`{short(operand, 50)}`); the patterns are anchored at column 0, so an indented `ok` / `1..N` / `Bail out!` / `TAP version` '
+                   f'line (nested harness output) becomes a subtest / plan / bail-out instead of an unknown line, and YAML indentation is lost', raw)
+    if not bad:
+        m.ok('C18.R2', f'{len(sites)} line-form matches / indentation tests see the line with at most trailing characters removed (patterns are anchored at column 0)')
 
 
 def _pre_sem(m: Model) -> T.Callable[[Atom], T.Optional[T.Tuple[str, bool]]]:
